@@ -24,7 +24,7 @@ def payload_loc(loc, idx, k=0):
 
 def ret_payload(c, st, val, loc):
     lin = c.I.lin_of(st, val, loc) if isinstance(val, Int) else None
-    c.ret(val, lin, loc if not isinstance(val, Int) else None, st=st)
+    c.ret(val, lin, loc, st=st)
 
 
 def wrap_payload(c, st, mk, idx, val, loc):
@@ -39,6 +39,8 @@ def wrap_payload(c, st, mk, idx, val, loc):
             for p, leaf in int_leaves(val):
                 if not leaf.is_const() and st.leaf((loc[0], loc[1] + p)) is not None:
                     ex.append(((("v", idx), 0) + p, LinForm.var((loc[0], loc[1] + p))))
+    if loc is not None:
+        ex.append(("reloc", loc, (("v", idx), 0)))
     c.ret(mk(val), st=st, extras=tuple(ex))
 
 
@@ -54,6 +56,14 @@ def split_enum(c, e, loc):
                 if nv.is_bot():
                     continue
                 s.cells[loc[0]] = set_at(s.cells[loc[0]], loc[1], nv)
+                try:
+                    s.apply_guard(loc, ("v", idx))
+                except Infeasible:
+                    continue
+                cur2 = c.I.read_loc(s, loc)
+                if isinstance(cur2, Enum) and idx in cur2.variants:
+                    yield idx, cur2.variants[idx], s
+                    continue
         yield idx, e.variants[idx], s
 
 
@@ -88,6 +98,13 @@ def m_unwrap(c):
         return
     if loc is not None and bad:
         c.st.cells[loc[0]] = set_at(c.st.cells[loc[0]], loc[1], e.only(good))
+        try:
+            c.st.apply_guard(loc, ("v", good))
+        except Infeasible:
+            return
+        e2 = c.I.read_loc(c.st, loc)
+        if isinstance(e2, Enum) and good in e2.variants:
+            e = e2
     ret_payload(c, c.st, e.variants[good][0], payload_loc(loc, good))
 
 
@@ -424,6 +441,26 @@ def m_to_bytes(c):
 
 @model("core::num::from_be_bytes", "core::f64::from_be_bytes", "core::f32::from_be_bytes", "core::num::from_le_bytes")
 def m_from_bytes(c):
+    ty = c.ret_ty()
+    v, _ = c.arg(0)
+    if c.name == "core::num::from_be_bytes" and isinstance(v, Arr) and ty and ty.get("k") in ("int", "uint") and isinstance(v.len, Int) and v.len.is_const():
+        n = v.len.lo
+        lo = hi = 0
+        for i in range(n):
+            cell = v.cells.get(i, v.elem)
+            cl, ch = (cell.lo, cell.hi) if isinstance(cell, Int) else (0, 255)
+            lo = lo * 256 + cl
+            hi = hi * 256 + ch
+        signed = ty["k"] == "int"
+        if signed:
+            first = v.cells.get(0, v.elem)
+            fl, fh = (first.lo, first.hi) if isinstance(first, Int) else (0, 255)
+            if fl >= 128:
+                lo, hi = lo - (1 << (8 * n)), hi - (1 << (8 * n))
+            elif fh > 127:
+                lo, hi = int_range(ty["bits"], True)
+        c.ret(c.I.mk_int(lo, hi, ty["bits"], signed))
+        return
     c.ret_top()
 
 
